@@ -214,6 +214,17 @@ def cases(rng, tier):
             if rng.random() < 0.15:
                 c["no_measures"] = True
         yield c
+    # parts that count MUSICAL beats with CUSTOMISED numbers per time signature (use_musical_beat({"4/4": 2})): the
+    # read-only calls (the match export on the part itself above all) must leave mode, TimeSignature.musical_beats,
+    # beat maps and beat columns alone
+    for i in range(10 if tier == "quick" else 400):
+        c = {"k": "frame", "seed": rng.randrange(2**31), "what": rng.choice(["part", "part", "score"]), "mb": 1 + i % 2}
+        if rng.random() < 0.3:
+            c["warm"] = rng.choice([2, 31, 127, 255])
+        yield c
+    # the estimators on a structured NOTE ARRAY argument with zero-duration notes (grace notes / onset-only arrays)
+    for i in range(10 if tier == "quick" else 400):
+        yield {"k": "naarg", "seed": rng.randrange(2**31), "zero": ["grace", "some", "all"][i % 3]}
 
 
 def make_container(kind, n):
@@ -324,9 +335,12 @@ def evaluate(d):
     elif k == "forms":
         forms_case(d, ev)
         ev.key = "forms:%s:%s:%d" % (d["side"], d["form"], d["seed"])
+    elif k == "naarg":
+        naarg_case(d, ev)
+        ev.key = "naarg:%d:%s" % (d["seed"], d["zero"])
     else:
         frame_case(d, ev)
-        ev.key = "frame:%d:%s" % (d["seed"], d["what"])
+        ev.key = "frame:%d:%s%s" % (d["seed"], d["what"], ":mb%d" % d["mb"] if d.get("mb") else "")
     return ev
 
 
@@ -615,6 +629,116 @@ def add_navigation(pd, rng):
         X.append(["Coda", T[c], None, {}])
 
 
+def custom_musical_beats(part, mode):
+    """a dict for use_musical_beat / set_musical_beat_per_ts that differs from the default table for every time
+    signature of the part (mode 1: halve / one beat per bar; mode 2: another non-default number)"""
+    import partitura.score as S
+
+    out = {}
+    for ts in part.iter_all(S.TimeSignature):
+        default = {6: 2, 9: 3, 12: 4}.get(ts.beats, ts.beats)
+        cands = [v for v in ((1, 2, 3) if mode == 1 else (3, 2, 5, 1)) if v != default]
+        out["%d/%d" % (ts.beats, ts.beat_type)] = cands[0]
+    return out
+
+
+def beat_view(part):
+    """what a caller sees of the beat structure of a part, read through the public interface only (independent of the
+    fingerprint): mode flag, the time-signature objects and their three numbers, beat map and its inverse at sampled
+    times, third column of time_signature_map, beat columns of the note array"""
+    import partitura.score as S
+
+    tss = [(id(t), t.start.t, t.beats, t.beat_type, t.musical_beats) for t in part.iter_all(S.TimeSignature)]
+    out = {"mode": bool(part._use_musical_beat), "ts": tss}
+    if part.first_point is not None and part.last_point is not None and part.first_point.t < part.last_point.t:
+        a, b = part.first_point.t, part.last_point.t
+        ts_ = sorted(set([a, b, (a + b) // 2, (a + 3 * b) // 4] + [t[1] for t in tss]))
+        try:
+            out["beat_map"] = [float(x) for x in np.atleast_1d(part.beat_map(ts_))]
+            out["inv_beat_map"] = [float(x) for x in np.atleast_1d(part.inv_beat_map(out["beat_map"]))]
+            out["ts_map"] = [[int(x) for x in part.time_signature_map(t)] for t in ts_ if a <= t < b]
+        except Exception as e:
+            out["maps"] = type(e).__name__
+        try:
+            na = part.note_array()
+            out["beats"] = sorted(zip([str(x) for x in na["id"]], [float(x) for x in na["onset_beat"]],
+                                      [float(x) for x in na["duration_beat"]]))
+        except Exception as e:
+            out["beats"] = type(e).__name__
+    return out
+
+
+def naarg_case(d, ev):
+    """estimate_key / estimate_spelling / estimate_voices with a structured NOTE ARRAY argument (documented form) that
+    contains notes of duration zero: the caller's array must be byte-for-byte what it was, the result must not alias it,
+    a second call on it gives the same result, and the result equals the one on a private copy of the array"""
+    import partitura.score as S
+    from partitura.musicanalysis import estimate_spelling, estimate_voices, estimate_key
+
+    rng = random.Random(d["seed"])
+    sd = G.random_score_desc(rng, nparts=1, n_measures=rng.randint(2, 4), p_uneven=0.0, p_grace=0.3, p_rest=0.05)
+    part = G.build_score(sd).parts[0]
+    if d["zero"] != "grace" and rng.random() < 0.5:
+        part.use_musical_beat()
+    try:
+        na = part.note_array()
+    except Exception as e:
+        ev.info = {"raised": {"note_array": type(e).__name__}}
+        ev.key = "naarg:%s" % d["zero"]
+        return
+    if len(na) == 0:
+        ev.info = {"raised": {}, "empty": True}
+        ev.key = "naarg:%s" % d["zero"]
+        return
+    na = na.copy()
+    dur_fields = [f for f in na.dtype.names if f.startswith("duration_")]
+    if d["zero"] == "all":          # an onset-only array: no note has a duration
+        for f in dur_fields:
+            na[f] = 0
+    elif d["zero"] == "some" or not (na["duration_div"] == 0).any():
+        idx = rng.sample(range(len(na)), max(1, len(na) // 4))   # as grace notes / zero-length notes appear in an array
+        for f in dur_fields:
+            na[f][idx] = 0
+    nzero = int((na["duration_beat"] == 0).sum())
+    calls = {"estimate_key": lambda a: estimate_key(a), "estimate_key_temperley": lambda a: estimate_key(a, key_profiles="temperley"),
+             "estimate_spelling": lambda a: estimate_spelling(a), "estimate_voices": lambda a: estimate_voices(a)}
+    names = sorted(calls)
+    rng.shuffle(names)
+    raised = {}
+    for nm in names + names[::-1]:
+        before = na.copy()
+        ref_in = na.copy()
+        try:
+            r = calls[nm](na)
+        except BaseException as e:
+            if isinstance(e, (KeyboardInterrupt, SystemExit)):
+                raise
+            raised[nm] = type(e).__name__
+            r = None
+        if before.tobytes() != na.tobytes() or before.dtype != na.dtype:
+            ch = [f for f in na.dtype.names if before[f].tobytes() != na[f].tobytes()]
+            ev.oracle.append("%s modified the note array it was given (%d notes, %d with duration zero; mode %s): fields %s changed, "
+                             "e.g. %s -> %s" % (nm, len(na), nzero, d["zero"], ch, before[ch[0]].tolist()[:8] if ch else "",
+                                                na[ch[0]].tolist()[:8] if ch else ""))
+            na[...] = before
+            continue
+        if r is None:
+            continue
+        if isinstance(r, np.ndarray) and (r is na or np.shares_memory(r, na)):
+            ev.oracle.append("%s returned an array that shares memory with its note-array argument" % nm)
+        try:
+            r2 = calls[nm](ref_in)
+        except BaseException as e:
+            if isinstance(e, (KeyboardInterrupt, SystemExit)):
+                raise
+            ev.oracle.append("%s works on a note array and raises %s on an equal copy of it" % (nm, type(e).__name__))
+            continue
+        if canon_result(r) != canon_result(r2):
+            ev.oracle.append("%s gives different results on a note array and on an equal copy of it" % nm)
+    ev.info = {"raised": raised, "zeros": nzero, "n": len(na)}
+    ev.key = "naarg:%s" % d["zero"]
+
+
 def frame_case(d, ev):
     import partitura.score as S
     import partitura.performance as P
@@ -674,9 +798,16 @@ def frame_case(d, ev):
                         S.add_segments(p_)
                     except Exception:
                         pass
+        if d.get("mb"):
+            for p_ in list(score.parts) + ([] if twin is None else [twin] if isinstance(twin, S.Part) else list(twin.parts)):
+                p_.use_musical_beat(custom_musical_beats(p_, d["mb"]))
         obj = score.parts[0] if d["what"] == "part" else score
         eps = score_entry_points(obj, rng)
-        fp = lambda: G.fingerprint_score(obj, with_ids=True)
+        if d.get("mb"):
+            _parts = [obj] if isinstance(obj, S.Part) else list(obj.parts)
+            fp = lambda: {"fp": G.fingerprint_score(obj, with_ids=True), "beat_view": {str(i_): beat_view(p_) for i_, p_ in enumerate(_parts)}}
+        else:
+            fp = lambda: G.fingerprint_score(obj, with_ids=True)
         if twin is not None and G.fingerprint_score(twin) != G.fingerprint_score(obj):
             ev.oracle.append("history: a %s built with reads in between differs from the same %s built without: %s" % (
                 d["what"], d["what"], fp_diff(G.fingerprint_score(twin), G.fingerprint_score(obj))))
@@ -1039,6 +1170,8 @@ def edit_results(obj, d, ev, fp):
 def finding_key(d, f):
     if d["k"] == "frame":
         return "frame:" + f.split(" ")[0] + ":" + ("modified" if "modified" in f else "repeat")
+    if d["k"] == "naarg":
+        return "naarg:" + f.split(" ")[0] + ":" + ("modified" if "modified" in f else "other")
     if d["k"] == "slice":
         return "slice:" + ("modified" if "modified its argument" in f else "view" if "view of its argument" in f else "repeat")
     return d["k"] + ":" + f.split(":")[0]
